@@ -70,6 +70,20 @@ func (m *Monitor) Check(w *World, pre raft.VNode, op Op, post raft.VNode) *Bad {
 			}
 		}
 	}
+	// C17: a follower that hears from the leader of its term postpones its election, whatever it answers — a refused
+	// consistency check (prevEntryNotFound / prevTermMismatch while the leader probes a divergent tail) is still the live
+	// leader talking; only a request of a stale term is not
+	if (op.Kind == "append" || op.Kind == "install") && post.RpcReply != nil && post.Role == "follower" {
+		reqTerm := uint64(0)
+		if op.Append != nil {
+			reqTerm = op.Append.Term
+		} else if op.Install != nil {
+			reqTerm = op.Install.Term
+		}
+		if reqTerm >= pre.Term && reqTerm == post.Term && !post.RpcReply.ResetTimer && post.RpcReply.Result != 3 && w.Node.Panic == "" {
+			return &Bad{"C17", fmt.Sprintf("follower answered a request of the leader of its term %d with result %d and does NOT reset its election timer: it will time out and depose a live leader that is still talking to it", post.Term, post.RpcReply.Result)}
+		}
+	}
 	// C01: a vote reply counts only in the election it was requested for
 	if op.Kind == "voteResult" && op.Elect != 0 && op.Elect != pre.Term && pre.Role == "candidate" && !op.Err {
 		if post.VotesNeeded != pre.VotesNeeded || (post.Role == "leader" && post.Term == pre.Term) {
